@@ -261,6 +261,8 @@ def make_chain(rng):
     newest = E.with_versions(base, rng.fork("ver"), k.choice([1, 2, 2, 3]), partial=True, must_edit=must,
                              order=k.choice(["oldest_first", "oldest_first", "newest_first", "shuffled"]), p_new_protocol=k.choice([0.0, 0.4]),
                              widen_steps=("evo3", "evo4", "evo6", "evo7", "evo10"), widen_aliases=wal)
+    # where the previous versions come from: directories next to the package, or commits of one git repository named by URL
+    newest.versions_from_git = k.fork("git").chance(0.3)
     return newest
 
 
@@ -389,6 +391,8 @@ def model_task(task, ybin, root):
         stats["chains"] = 1
         stats["versions"] = len(old_models)
         edits = [e for l in getattr(newest, "edit_log", []) for e in l]
+        if getattr(newest, "versions_from_git", False):
+            stats["chains_whose_versions_are_commits_of_one_git_repository"] = 1
         if any(e.startswith("widen_alias") for e in edits):
             stats["chains_with_a_named_type_whose_definition_widened"] = 1
         if newest.find("EvoBox") is not None:
@@ -434,7 +438,7 @@ def main():
                stubbed="C++ nd-array header and date/date.h; harness main emitted from the generated protocols.h",
                assumptions=["where the reference conversion says a runtime error is allowed (overflow, inexact narrowing, removed union case) neither an error nor a value is judged",
                             "conversions the documentation leaves open (number <-> string, float -> int rounding) are never generated"],
-               replay_fn=replay_doc, quick_budget=160, fault_keys=("old_to_new", "new_to_old", "old_new_old", "reference_says_runtime_error_allowed", "reference_says_numeric_overflow", "chains_with_a_named_type_whose_definition_widened"))
+               replay_fn=replay_doc, quick_budget=160, fault_keys=("old_to_new", "new_to_old", "old_new_old", "reference_says_runtime_error_allowed", "reference_says_numeric_overflow", "chains_with_a_named_type_whose_definition_widened", "chains_whose_versions_are_commits_of_one_git_repository"))
 
 
 if __name__ == "__main__":
